@@ -416,6 +416,7 @@ def run(R):
     r9(R)
     r10(R)
     r11(R)
+    r12(R)
 
 
 def certify(R, prog, bodies, rule):
@@ -1300,3 +1301,53 @@ def r11(R):
          detail=None if ok else "`INSERT DATA { << <urn:s> # note\\n <urn:p> \"v\" >> <urn:q> <urn:o> }` is accepted by the parser; the consumers split the "
          "kept text at blanks only, so `#` and the words of the comment become the predicate and object of the quoted triple (nothing "
          "sensible is stored, the same pattern in a WHERE clause matches nothing)")
+
+
+def r12(R):
+    """language tags: subtags after the first admit digits"""
+    prog = R.prog
+    R.rule("C16-R12", "a language tag is a LANGTAG: in the literal scanner the code that runs after `@` accepts digits in the subtags that follow the "
+                      "primary one (`[a-zA-Z]+ ('-' [a-zA-Z0-9]+)*`) - a digit-accepting character class is among the classes it scans with. A scanner "
+                      "that is alphabetic throughout rejects `\"hola\"@es-419` and `@de-CH-1996`: a valid query becomes a syntax error (the same "
+                      "agreement C13-R6 demands of the N-Triples tokenizer)")
+    b = R.body("C16-R12", "parser::sparql_quoted_literal", crate="kolibrie")
+    if b is None:
+        return
+    R.saw(b)
+    ats = [c for c in b.calls() if c.name() in ("strip_prefix", "starts_with") and any(a.get("k") == "const" and (str(a.get("v")) == "64" or "@" in (F.const_strs(a) or []))
+                                                                                      for a in c.args)]
+    if not R.ob("C16-R12", "at-branch", "the literal scanner has a branch for `@` (found %d test)" % len(ats), len(ats) >= 1, where=b.where()):
+        return
+    region = set()
+    for bb in b.reachable_blocks():
+        for cd in G.conditions(b, bb):
+            if cd.get("bb") is not None and any(b.dominates(a.bb, cd["bb"]) for a in ats) and (
+                    (cd.get("kind") == "variant" and cd.get("variant") == "Some" and cd.get("truth") is True and any(b.reads({"k": "copy", "pl": cd["pl"]}, a.dest["l"]) for a in ats if cd.get("pl")))
+                    or (cd.get("kind") == "call" and cd["call"] in ats and cd.get("truth") is True)):
+                region.add(bb)
+    # classes the scanner *consumes* with: predicates handed to scanning adaptors, and class tests inside loops of the branch (a look-ahead
+    # such as `next().is_some_and(..)` after the tag does not consume)
+    SCAN = {"take_while", "skip_while", "position", "rposition", "find", "trim_start_matches", "trim_matches", "all", "any", "map_while", "split"}
+    from lib.taint import Taint
+    TT = Taint(prog, b)
+    classes = set()
+    for c in b.calls():
+        if c.bb not in region:
+            continue
+        if c.name().startswith("is_") and b.loops_containing(c.bb):
+            classes.add(c.name())
+        if c.name() in SCAN:
+            for a in c.args:
+                if a.get("k") == "const":
+                    nm = str(a.get("fn") or a.get("d") or "").split("::")[-1]
+                    if nm.startswith("is_"):
+                        classes.add(nm)
+                cb = TT._closure_of(b, a)
+                if cb is not None:
+                    for y in prog.family(cb.key):
+                        classes |= {cc.name() for cc in y.calls() if cc.name().startswith("is_")}
+    R.ob("C16-R12", "region", "the `@` branch was located (%d blocks; character classes used: %s)" % (len(region), sorted(classes)), len(region) >= 1 and bool(classes), where=b.where())
+    digits = {"is_alphanumeric", "is_ascii_alphanumeric", "is_ascii_digit", "is_numeric", "is_digit"}
+    ok = bool(classes & digits)
+    R.ob("C16-R12", "digits-in-subtags", "the language-tag scanner accepts digits after the primary subtag (character classes used: %s)" % sorted(classes), ok, where=b.where(ats[0].ln),
+         detail=None if ok else "`SELECT .. { ?s ?p \"hola\"@es-419 }` is rejected although `@es-MX` parses")
